@@ -127,9 +127,11 @@ Definition hook_eqb (h k : hook) : bool :=
   | HBandit, HBandit => true
   | _, _ => false
   end.
+(* MutationRegistry.__eq__ compares the network groups (dataclass equality) and the optimizer configurations
+   (OptimizerConfig.__eq__: name and networks only); hooks and the hyper-parameter configuration are NOT compared *)
+Definition optcfg_same (c d : optcfg) : bool := N.eqb (oc_name c) (oc_name d) && leqb N.eqb (oc_nets c) (oc_nets d).
 Definition reg_eqb (r q : registry) : bool :=
-  leqb group_eqb (r_groups r) (r_groups q) && leqb optcfg_eqb (r_opts r) (r_opts q) &&
-  leqb hook_eqb (r_hooks r) (r_hooks q) && leqb N.eqb (r_hps r) (r_hps q) && Bool.eqb (r_act_skip r) (r_act_skip q).
+  leqb group_eqb (r_groups r) (r_groups q) && leqb optcfg_same (r_opts r) (r_opts q).
 
 (* agent.load_checkpoint(path): networks and optimizers are replaced first; a registry mismatch then raises
    (second component false) and leaves the agent half restored *)
